@@ -75,7 +75,7 @@ class _PlainHost:
     """A plain host entry in a known_hosts file"""
 
     def __init__(self, pattern: str):
-        self._pattern = HostPatternList(pattern)
+        self._pattern = HostPatternList(pattern.lower())
 
     def matches(self, host: str, addr: str, ip: Optional[IPAddress]) -> bool:
         """Return whether a host or address matches this host pattern list"""
@@ -179,7 +179,7 @@ class SSHKnownHosts:
     def _add_exact(self, pattern: str, entry: _HostEntry) -> None:
         """Add an exact match entry"""
 
-        for host_pat in pattern.split(','):
+        for host_pat in pattern.lower().split(','):
             if host_pat not in self._exact_entries:
                 self._exact_entries[host_pat] = []
 
@@ -199,10 +199,11 @@ class SSHKnownHosts:
                port: Optional[int] = None) -> _KnownHostsResult:
         """Find host keys matching specified host, address, and port"""
 
-        # Host names are case-insensitive. Entries are matched against
-        # the lower case form, as written by OpenSSH, so that entries
-        # which revoke or exclude a host can't be avoided by spelling
-        # its name differently.
+        # Host names are case-insensitive. Names and the patterns in
+        # entries are compared in lower case (hashed entries hold the
+        # lower case form, as written by OpenSSH), so that entries which
+        # revoke or exclude a host can't be avoided by spelling its name
+        # differently.
         host = host.lower()
 
         if addr:
